@@ -43,7 +43,8 @@ def s16(v):
 
 
 COMMON = dict(props=["C06"], modifies=["emit.cmd_stream", "emit.offset"], **GHOST)
-KEEP = ["emit_inv(emit)", "all(emit.cmd_stream[i] == old(emit.cmd_stream)[i] for i in range(old(len(emit.cmd_stream))))"]
+KEEP = ["emit_inv(emit)", "len(emit.cmd_stream) >= old(len(emit.cmd_stream))",
+        "all(emit.cmd_stream[i] == old(emit.cmd_stream)[i] for i in range(old(len(emit.cmd_stream))))"]
 
 
 def mm(*regs):
